@@ -31,6 +31,8 @@ from nix_manipulator.expressions.with_statement import WithStatement
 from nix_manipulator.mapping import tree_sitter_node_to_expression
 from nix_manipulator.resolution import (
     attach_resolution_context,
+    clear_resolution_context,
+    get_resolution_context,
     scopes_for_owner,
     set_resolution_context,
 )
@@ -235,9 +237,18 @@ class NixSourceCode:
                     return resolve_from_expr(target.body, scopes=body_scopes)
                 case Identifier():
                     identifier_scopes = scopes or scopes_for_owner(target)
+                    # The chain holds the identifier's own let layers: leave what
+                    # was stored before in place, or the next lookup adds them twice.
+                    previous = get_resolution_context(target)
                     if identifier_scopes:
                         set_resolution_context(target, identifier_scopes)
-                    resolved = target.value
+                    try:
+                        resolved = target.value
+                    finally:
+                        if previous is None:
+                            clear_resolution_context(target)
+                        else:
+                            set_resolution_context(target, previous.scopes)
                     return resolve_nested(resolved, scopes=identifier_scopes)
                 case Parenthesis():
                     return resolve_nested(target.value, scopes=scopes)
